@@ -7,8 +7,25 @@ def decCls (s : String) : Cls :=
   else if s.startsWith "L" then .lit ((decChars (s.drop 1).toString).headD 'x')
   else .oneOf (decChars (s.drop 1).toString)
 
-def decPat (s : String) : Pat := (s.splitOn ",").map decCls
+/-- one pattern token: a class, or `class*n` = that class n times (run-length, for long patterns) -/
+def decTok (s : String) : List Cls :=
+  match s.splitOn "*" with
+  | [c, n] => List.replicate (n.toNat?.getD 1) (decCls c)
+  | _ => [decCls s]
+
+def decPat (s : String) : Pat := ((s.splitOn ",").map decTok).flatten
 def decChunks (s : String) : List (List Char) := (s.splitOn "|").map decChars
+
+def decPats (s : String) : List Pat := if s == "-" then [] else (s.splitOn ";").map decPat
+def decKw (s : String) : Option (List Pat) := if s == "~" then none else some (decPats s)
+
+/-- `r:<kw>:<chunks>` = Context.run, `s:<prompt pattern>:<kw>:<chunks>` = Context.sudo;
+    kw = `~` (no watchers= kwarg), `-` (empty list) or patterns separated by `;` -/
+def decCmd (s : String) : Cmd :=
+  match s.splitOn ":" with
+  | ["r", kw, cs] => { sudo := none, kw := decKw kw, chunks := decChunks cs }
+  | ["s", p, kw, cs] => { sudo := some (decPat p), kw := decKw kw, chunks := decChunks cs }
+  | _ => { sudo := none, chunks := [] }
 
 def step (line : String) : String :=
   match line.splitOn " " with
@@ -17,6 +34,9 @@ def step (line : String) : String :=
   | ["fail", p, s, cs] =>
     ",".intercalate ((frun (decPat p) (decPat s) {} [] (decChunks cs)).map
       (fun o => match o with | some n => toString n | none => "!"))
+  | "hist" :: conf :: cmds =>
+    "/".intercalate ((history (decPats conf) (cmds.map decCmd)).map
+      (fun r => ",".intercalate (r.map toString)))
   | _ => "bad-op"
 
 def main : IO Unit := mainLoop step
